@@ -27,11 +27,12 @@ int sm9_kem_encrypt(const SM9_ENC_MASTER_KEY *mpk, const char *id, size_t idlen,
 	uint8_t wbuf[32 * 12];
 	uint8_t cbuf[65];
 	SM3_KDF_CTX kdf_ctx;
+	SM9_Z256_POINT Q;
 
 	// A1: Q = H1(ID||hid,N) * P1 + Ppube
 	sm9_z256_hash1(r, id, idlen, SM9_HID_ENC);
-	sm9_z256_point_mul(C, r, sm9_z256_generator());
-	sm9_z256_point_add(C, C, &mpk->Ppube);
+	sm9_z256_point_mul(&Q, r, sm9_z256_generator());
+	sm9_z256_point_add(&Q, &Q, &mpk->Ppube);
 
 	do {
 		// A2: rand r in [1, N-1]
@@ -41,7 +42,7 @@ int sm9_kem_encrypt(const SM9_ENC_MASTER_KEY *mpk, const char *id, size_t idlen,
 		}
 
 		// A3: C1 = r * Q
-		sm9_z256_point_mul(C, r, C);
+		sm9_z256_point_mul(C, r, &Q);
 		sm9_z256_point_to_uncompressed_octets(C, cbuf);
 
 		// A4: g = e(Ppube, P2)
